@@ -922,9 +922,11 @@ class Atoms:
 
         if self.cell is not None:
             a, b, c, alpha, beta, gamma = self.cell_abc_alpha_beta_gamma()
-            block['_cell_length_a'] = a
-            block['_cell_length_b'] = b
-            block['_cell_length_c'] = c
+            # 12 significant digits: lengths recomputed from a re-read cell differ in the last bits, which
+            # would otherwise change the text every time a file is read and written again
+            block['_cell_length_a'] = float("%.12g" % a)
+            block['_cell_length_b'] = float("%.12g" % b)
+            block['_cell_length_c'] = float("%.12g" % c)
             block['_cell_angle_alpha'] = "%.4f" % alpha
             block['_cell_angle_beta']  = "%.4f" % beta
             block['_cell_angle_gamma'] = "%.4f" % gamma
